@@ -24,7 +24,7 @@ RULE = ("Formula/Matrix/Numerical graders with the default equality comparison w
 ASSUMPTIONS = ["the k-th draw of every scripted variable belongs to the k-th sample (one answer alternative, so one "
                "sampling pass per call) - verified by the agreement of 100% of judged cases on the unchanged tree",
                "reference evaluation keeps reals real; cases with intermediates > 1e8 or ill-conditioned are discarded"]
-REQUIRED = {'mid-failures': 150, 'near-boundary': 100, 'pct-asymmetric': 60, 'array': 150, 'exact/identical': 100, 'array/frobenius-vs-max': 40,
+REQUIRED = {'mid-failures': 150, 'near-boundary': 100, 'pct-asymmetric': 60, 'array': 150, 'exact/identical': 100, 'tight-percentage': 100, 'array/frobenius-vs-max': 40,
             'exact/dyadic-on': 60, 'exact/dyadic-off': 60, 'rewrite': 150, 'infinity': 60, 'numerical': 60,
             'complex-samples': 80}
 
@@ -60,12 +60,24 @@ def sample_values():
 
 @st.composite
 def specs(draw):
-    kind = draw(st.sampled_from(['poly', 'poly', 'poly', 'scale', 'pct', 'rewrite', 'branch', 'identical', 'dyadic',
+    kind = draw(st.sampled_from(['poly', 'poly', 'poly', 'scale', 'pct', 'tightpct', 'rewrite', 'branch', 'identical', 'dyadic',
                                  'infinity', 'numerical', 'array', 'array']))
     real, cplx = sample_values()
     ns = draw(st.integers(1, 8))
     spec = {'kind': kind, 'seed': draw(st.integers(0, 10 ** 6)), 'credit': draw(st.sampled_from([1, 1, 0.5, 0.3])),
             'ws': draw(X.whitespace_styles())}
+    if kind == 'tightpct':
+        # very tight percentage tolerances (a seeded change rounded the stored percentage to 6 decimals)
+        spec['samples'] = draw(st.integers(1, 4))
+        spec['failable'] = 0
+        spec['tol'], spec['eps'] = draw(st.sampled_from([
+            ['1e-7%', 1e-10], ['1e-7%', -2e-10], ['1e-7%', 5e-9], ['0.0000004%', 1e-9], ['0.0000004%', 9e-9],
+            ['0.0000026%', 2.9e-8], ['0.0000026%', 1e-8], ['0.0000026%', -2.2e-8], ['0.00001%', 1.4e-7],
+            ['0.00001%', 4e-8]]))
+        spec['answer'] = draw(st.sampled_from(['x', '2*x+1', 'x^2+y', 'x*y', '3', 'x+y+0.5']))
+        spec['xs'] = draw(st.lists(st.sampled_from([0.6, 1.7, 2.5, 1.25, 3.0, 0.8]), min_size=4, max_size=4))
+        spec['ys'] = draw(st.lists(st.sampled_from([0.5, 1.5, 2.0, 0.75]), min_size=4, max_size=4))
+        return spec
     if kind in ('dyadic', 'infinity', 'numerical'):
         spec['samples'] = 1 if kind == 'numerical' else draw(st.integers(1, 4))
         spec['failable'] = 0 if kind == 'numerical' else draw(st.integers(0, 2))
@@ -256,8 +268,35 @@ def check_grade(spec, r_kind, r, want, what, rec, key):
         raise Violation(key, '%s: grade %r (ok=%r) but the tolerance rule gives %r' % (what, got, r['ok'], want))
 
 
+def judge_tightpct(spec, rec):
+    ns = spec['samples']
+    xs, ys = spec['xs'][:ns], spec['ys'][:ns]
+    samplers = {'x': ScriptedSampler(values=[float(v) for v in xs]), 'y': ScriptedSampler(values=[float(v) for v in ys])}
+    p = float(spec['tol'][:-1]) / 100
+    eps = spec['eps']
+    if abs(abs(eps) - p) < 0.05 * p:
+        raise Discard('guard-band')
+    a_str = spec['answer']
+    s_str = '(%s)*(1+%r)' % (a_str, eps) if eps > 0 else '(%s)*(1-%r)' % (a_str, -eps)
+    # every sample misses by the relative amount |eps| (answers are positive sums/products of values in [0.5, 3]:
+    # rounding is ~1e-16 relative, five orders below the smallest tolerance used here)
+    F = ns if abs(eps) > p else 0
+    want = expect_verdict(spec, F)
+    g = build_grader(FormulaGrader, a_str, spec, samplers)
+    k, r = grade(g, s_str, spec)
+    rec.calls()
+    check_grade(spec, k, r, want, 'answer %r student %r percentage tolerance %r (relative miss %g)' % (
+        a_str, s_str, spec['tol'], abs(eps)), rec,
+        'tight-percentage/%s' % ('accepted-beyond-tolerance' if want == 0 else 'rejected-within-tolerance'))
+    rec.cls('tight-percentage')
+    rec.nontrivial()
+    return {'answer': a_str, 'student': s_str, 'tol': spec['tol'], 'grade': gd(k, r)}
+
+
 def judge(spec, rec):
     kind = spec['kind']
+    if kind == 'tightpct':
+        return judge_tightpct(spec, rec)
     if kind == 'dyadic':
         return judge_dyadic(spec, rec)
     if kind == 'infinity':
